@@ -84,12 +84,14 @@ func Balloon.QueryDigestMembershipConsistency
   modifies everything
   ensures isnil(result_1) ==> result_0 != nil && result_0.HyperProof != nil
 
-// C03: a consistency proof is only attempted for 0 <= start <= end < version
+// C03, C11: a consistency proof is only attempted for 0 <= start <= end < version; any other
+// range in a request is answered with an error (the history tree has no nodes for it: its
+// visitor panics on a missing node, which is how a wrong bound here would crash the server)
 func Balloon.QueryConsistency
-  props C03
+  props C03 C11
   requires b.historyTree != nil && b.hasherF != nil
   modifies everything
-  ensures C03/range-check: (start >= old(b.version) || end >= old(b.version) || start > end) ==> result_0 == nil && !isnil(result_1)
+  ensures C03,C11/range-check: (start >= old(b.version) || end >= old(b.version) || start > end) ==> result_0 == nil && !isnil(result_1)
 
 func NewMembershipProof
   props C02 C12 C13
